@@ -112,6 +112,8 @@ def sink_of(fn: Func, call: ast.Call) -> Optional[tuple]:
         return ("fdopen", q)
     if q in ("os.makedirs", "os.mkdir"):
         return ("makedirs", q)
+    if last in ("read_text", "read_bytes") and isinstance(call.func, ast.Attribute):
+        return ("fread", "Path." + last)
     if last in ("write_text", "write_bytes", "touch", "mkdir") and isinstance(call.func, ast.Attribute):
         return ("fwrite", "Path." + last)
     if q in ("shutil.copy", "shutil.copyfile", "shutil.copy2", "shutil.move", "os.rename", "os.replace", "shutil.copytree"):
